@@ -71,11 +71,15 @@ func (rn *Runner) ObserveIndex(ev tl.M) {
 		}
 	}
 	ev["ix"] = tl.M{"on": exists, "inited": inited, "last": l, "set": set}
+	rn.LastInited = exists && inited
 }
 
 // IndexRunEvent records the progress of the background indexer as one step. With wait it
 // first waits for the initial indexing to finish.
 func (rn *Runner) IndexRunEvent(wait bool) {
+	if rn.LastInited || !rn.E.Cfg.Index {
+		return // the previous event already showed a completed initialisation: nothing to record
+	}
 	if wait && !rn.WaitIndexed() {
 		return
 	}
